@@ -227,6 +227,7 @@ type c19GenObs struct {
 	Series  []c19Series
 	Pipes   []*c19PipeObs
 	StopDur time.Duration
+	StopSeq int // trace sequence number of the stop request
 }
 
 type c19RunObs struct {
@@ -381,6 +382,7 @@ func c19RunPlan(p *c19Plan) *c19RunObs {
 				srv.WaitFor(func(chunks []*ffChunk) bool { return len(chunks) >= want }, 300*time.Millisecond)
 			}
 		}
+		gobs.StopSeq = len(tr.Events()) // every event logged from here on follows the stop request
 		if err := ag.Stop(); err != nil {
 			fail("c19:scenario:stop-timeout", "generation %d: %v", gen, err)
 			return ro
